@@ -25,3 +25,25 @@ func HEapEncodePureAnyCode() {
 		vr.Assert("c20.eap.anycode.deterministic", vr.EqBytes(b1, b2))
 	}
 }
+
+// HEapDecodeOwnsData (C20): a decoded EAP packet shares no memory with the buffer it was decoded from -
+// for every EAP-AKA' attribute (Param(1) is the attribute mask; method Param(0)).
+func HEapDecodeOwnsData() {
+	e := VGenEAP(vr.Param(0), vr.Param(1), 0)
+	enc, err := e.Marshal()
+	vr.Assert("c20.eap.encode.noerr", err == nil)
+	if err != nil {
+		return
+	}
+	buf := make([]byte, len(enc), len(enc)+8)
+	copy(buf, enc)
+	d := new(EAP)
+	err = d.Unmarshal(buf)
+	vr.Assert("c20.eap.decode.noerr", err == nil)
+	if err != nil {
+		return
+	}
+	vr.Assert("c20.eap.value", VEqEAP(e, d))
+	vr.Havoc(buf)
+	vr.Assert("c20.eap.noalias", VEqEAP(e, d))
+}
